@@ -171,6 +171,9 @@ def _alarm(signum, frame):
     raise Hang()
 
 
+_HANGS = [0]          # lines that ran into the time limit in this worker process so far
+
+
 def _impl_chunk(lines):
     import impl  # noqa  (imports the real code from REPO)
     out = []
@@ -178,13 +181,20 @@ def _impl_chunk(lines):
     quick_ones = []
     for idx, line in enumerate(lines):
         try:
-            signal.alarm(int(os.environ.get("VERIF_CASE_TIMEOUT", "60")))
+            # time limit of one line: generous (a loaded machine must not turn a slow line into a "hang"), ten times that for
+            # the operations that take seconds anyway; once two lines have hung in this worker process, later ones get a short limit
+            _base = int(os.environ.get("VERIF_CASE_TIMEOUT", "120"))
+            _lim = _base * 10 if line.startswith(HEAVY_OPS) else _base
+            if _HANGS[0] >= 2:
+                _lim = max(3, _lim // 40)
+            signal.alarm(_lim)
             _t = time.time()
             try:
                 try:
                     res = impl.evaluate(line)
                 except Hang:
                     res = "hang"
+                    _HANGS[0] += 1
                 out.append(res)
             except Hang:                       # the alarm went off between the evaluation and the bookkeeping
                 if len(out) <= idx:
@@ -238,7 +248,7 @@ def _impl_chunk(lines):
         for idx in quick_ones[::-1][:40]:
             if out[idx].startswith(("harness-error", "hang")):
                 continue
-            signal.alarm(int(os.environ.get("VERIF_CASE_TIMEOUT", "60")))
+            signal.alarm(int(os.environ.get("VERIF_CASE_TIMEOUT", "120")))
             try:
                 again = impl.evaluate(lines[idx])
             except BaseException:
